@@ -335,3 +335,10 @@ def is_const(node, value=None):
 def norm_stmt(node):
     """Normalised statement text used in construct keys (never a line number)."""
     return " ".join(src(node).split())
+
+
+def iter_base(it):
+    """(iterated expression, enumerated?) for `X`, `enumerate(X)`, `enumerate(X, start=k)`, `enumerate(X, k)`."""
+    if isinstance(it, ast.Call) and call_name(it) == "enumerate" and 1 <= len(it.args) <= 2 and all(k.arg == "start" for k in it.keywords):
+        return it.args[0], True
+    return it, False
